@@ -289,11 +289,15 @@ static void blk_gcm_main(void) {
 			mr_gcm(SM4R[k], 1, iv, ivl, aad, al, in, n, e, et, tl);
 			if (r != 1 || memcmp(o, e, n) || memcmp(tag, et, tl)) { vh_viol("C04:gcm:sm4_gcm_encrypt", "\"ivlen\":%zu,\"aadlen\":%zu,\"len\":%zu,\"taglen\":%zu,\"ret\":%d", ivl, al, n, tl, r); continue; }
 			r = sm4_gcm_decrypt(&sk, iv, ivl, aad, al, e, n, et, tl, d); vh_eval(vh_hash(kk, sizeof kk, 2)); if (r != 1 || memcmp(d, in, n)) vh_viol("C04:gcm:sm4_gcm_decrypt", "\"ivlen\":%zu,\"aadlen\":%zu,\"len\":%zu,\"taglen\":%zu,\"ret\":%d", ivl, al, n, tl, r);
+			/* in place: out == in */ { uint8_t t2[16]; memcpy(o, in, n); memset(t2, 0, 16); r = sm4_gcm_encrypt(&sk, iv, ivl, aad, al, o, n, o, tl, t2); vh_eval(vh_hash(kk, sizeof kk, 5)); if (r != 1 || memcmp(o, e, n) || memcmp(t2, et, tl)) vh_viol("C04:gcm:sm4_gcm_encrypt:in-place", "\"ivlen\":%zu,\"aadlen\":%zu,\"len\":%zu,\"taglen\":%zu,\"ret\":%d,\"ciphertext_same\":%d", ivl, al, n, tl, r, !memcmp(o, e, n));
+				memcpy(d, e, n); r = sm4_gcm_decrypt(&sk, iv, ivl, aad, al, d, n, et, tl, d); vh_eval(vh_hash(kk, sizeof kk, 6)); if (r != 1 || memcmp(d, in, n)) vh_viol("C04:gcm:sm4_gcm_decrypt:in-place", "\"ivlen\":%zu,\"aadlen\":%zu,\"len\":%zu,\"taglen\":%zu,\"ret\":%d", ivl, al, n, tl, r); }
 			/* AES-128-GCM against OpenSSL directly; this also validates mr_gcm on the same grid */
 			uint8_t ot[16]; long el = ref_cipher("AES-128-GCM", 1, 0, KEYS[k], iv, ivl, aad, al, in, n, e, ot, tl); if (el != (long)n) vh_harness_error("openssl aes-gcm ivlen=%zu", ivl);
 			mr_gcm(AESR[k], 1, iv, ivl, aad, al, in, n, d, et, tl); if (memcmp(d, e, n) || memcmp(et, ot, tl)) vh_harness_error("mr_gcm disagrees with OpenSSL AES-GCM ivlen=%zu aad=%zu n=%zu", ivl, al, n);
 			r = aes_gcm_encrypt(&ak, iv, ivl, aad, al, in, n, o, tl, tag); vh_eval(vh_hash(kk, sizeof kk, 3)); if (r != 1 || memcmp(o, e, n) || memcmp(tag, ot, tl)) vh_viol("C04:gcm:aes_gcm_encrypt", "\"ivlen\":%zu,\"aadlen\":%zu,\"len\":%zu,\"taglen\":%zu,\"ret\":%d", ivl, al, n, tl, r);
 			r = aes_gcm_decrypt(&ak, iv, ivl, aad, al, e, n, ot, tl, d); vh_eval(vh_hash(kk, sizeof kk, 4)); if (r != 1 || memcmp(d, in, n)) vh_viol("C04:gcm:aes_gcm_decrypt", "\"ivlen\":%zu,\"aadlen\":%zu,\"len\":%zu,\"taglen\":%zu,\"ret\":%d", ivl, al, n, tl, r);
+			{ uint8_t t2[16]; memcpy(o, in, n); memset(t2, 0, 16); r = aes_gcm_encrypt(&ak, iv, ivl, aad, al, o, n, o, tl, t2); vh_eval(vh_hash(kk, sizeof kk, 7)); if (r != 1 || memcmp(o, e, n) || memcmp(t2, ot, tl)) vh_viol("C04:gcm:aes_gcm_encrypt:in-place", "\"ivlen\":%zu,\"aadlen\":%zu,\"len\":%zu,\"taglen\":%zu,\"ret\":%d", ivl, al, n, tl, r);
+				memcpy(d, e, n); r = aes_gcm_decrypt(&ak, iv, ivl, aad, al, d, n, ot, tl, d); vh_eval(vh_hash(kk, sizeof kk, 8)); if (r != 1 || memcmp(d, in, n)) vh_viol("C04:gcm:aes_gcm_decrypt:in-place", "\"ivlen\":%zu,\"aadlen\":%zu,\"len\":%zu,\"taglen\":%zu,\"ret\":%d", ivl, al, n, tl, r); }
 		}
 		vh_sample("{\"block\":\"gcm\",\"key\":%d,\"ivlen\":%zu,\"aadlen\":%zu}", k, ivl, AAD[ai]);
 	}
@@ -329,6 +333,9 @@ static void blk_ccm(void) {
 		/* own round trip */
 		r = sm4_ccm_decrypt(&sk, nonce, nl, aadbuf, al, o, n, tag, tl, d); vh_eval(vh_hash(kk, sizeof kk, 13));
 		if (r != 1 || memcmp(d, in, n)) { snprintf(key, sizeof key, "C04:ccm:roundtrip:noncelen=%zu:%s", nl, n == 0 ? "empty" : n < 256 ? "len<2^8" : n < 65536 ? "len<2^16" : "len>=2^16"); vh_viol(key, "\"noncelen\":%zu,\"taglen\":%zu,\"aadlen\":%zu,\"len\":%zu,\"ret\":%d", nl, tl, al, n, r); }
+		/* in place: out == in, both directions */
+		{ uint8_t t2[16]; memset(t2, 0, 16); memcpy(o, in, n); r = sm4_ccm_encrypt(&sk, nonce, nl, aadbuf, al, o, n, o, tl, t2); vh_eval(vh_hash(kk, sizeof kk, 14)); if (r != 1 || memcmp(o, e, n) || memcmp(t2, et, tl)) vh_viol("C04:ccm:sm4_ccm_encrypt:in-place", "\"noncelen\":%zu,\"taglen\":%zu,\"aadlen\":%zu,\"len\":%zu,\"ret\":%d,\"ciphertext_same\":%d,\"tag_same\":%d", nl, tl, al, n, r, !memcmp(o, e, n), !memcmp(t2, et, tl));
+		  memcpy(d, e, n); r = sm4_ccm_decrypt(&sk, nonce, nl, aadbuf, al, d, n, et, tl, d); vh_eval(vh_hash(kk, sizeof kk, 15)); if (r != 1 || memcmp(d, in, n)) vh_viol("C04:ccm:sm4_ccm_decrypt:in-place", "\"noncelen\":%zu,\"taglen\":%zu,\"aadlen\":%zu,\"len\":%zu,\"ret\":%d", nl, tl, al, n, r); }
 		vh_sample("{\"block\":\"ccm\",\"noncelen\":%zu,\"taglen\":%zu,\"aadlen\":%zu,\"len\":%zu}", nl, tl, al, n);
 	}
 }
